@@ -202,6 +202,35 @@ func (ex *Exec) toGo(v Value) (interface{}, bool) {
 	return nil, false
 }
 
+// runeCount: bytes are ASCII (one rune each); an opaque chunk has a symbolic rune count between half its
+// length and its length (it may contain two-byte UTF-8 letters).
+func (ex *Exec) runeCount(s *StrV) *Term {
+	tf := ex.tf
+	if s.isC {
+		return tf.Const(64, uint64(len([]rune(s.conc))))
+	}
+	n := 0
+	var t *Term
+	for _, sg := range ex.strSegs(s) {
+		if sg.op == nil {
+			n++
+			continue
+		}
+		rv := tf.VarRanged(sg.op.name+".runes", 64, 0, 1<<16-1)
+		c := tf.AndN(tf.Cmp("bvsle", tf.Const(64, 0), rv), tf.Cmp("bvsle", rv, sg.op.len), tf.Cmp("bvsle", sg.op.len, tf.BV("bvadd", rv, rv)))
+		ex.assumeInternal(c, "rune count of an opaque string chunk lies between half its byte length and its byte length")
+		if t == nil {
+			t = rv
+		} else {
+			t = tf.BV("bvadd", t, rv)
+		}
+	}
+	if t == nil {
+		return tf.Const(64, uint64(n))
+	}
+	return tf.BV("bvadd", t, tf.Const(64, uint64(n)))
+}
+
 func (ex *Exec) methodByName(t types.Type, name string) *ssaFunction {
 	ms := ex.prog.MethodSets.MethodSet(t)
 	for i := 0; i < ms.Len(); i++ {
@@ -374,6 +403,19 @@ func (ex *Exec) initIntrinsics() {
 	in["strings.LastIndex"] = func(ex *Exec, fr *Frame, a []Value) Value {
 		return ex.indexT(a[0].(*StrV), ex.concStr(a[1], "LastIndex substr"), true)
 	}
+	indexByte := func(ex *Exec, fr *Frame, a []Value) Value {
+		c := a[1].(*Term)
+		if !c.IsConst() {
+			ex.unsupported("IndexByte with symbolic byte")
+		}
+		return ex.indexT(a[0].(*StrV), string([]byte{byte(c.val)}), false)
+	}
+	in["strings.IndexByte"] = indexByte
+	in["internal/bytealg.IndexByteString"] = indexByte
+	in["internal/stringslite.IndexByte"] = indexByte
+	// rune count: bytes are ASCII (one rune each); an opaque chunk has a symbolic rune count between half
+	// its length and its length (it may contain two-byte UTF-8 letters)
+	in["unicode/utf8.RuneCountInString"] = func(ex *Exec, fr *Frame, a []Value) Value { return ex.runeCount(a[0].(*StrV)) }
 	in["strings.Replace"] = func(ex *Exec, fr *Frame, a []Value) Value {
 		return ex.cstr(strings.Replace(ex.concStr(a[0], "Replace"), ex.concStr(a[1], "Replace"), ex.concStr(a[2], "Replace"), int(ex.concInt(a[3], "Replace n"))))
 	}
